@@ -119,7 +119,8 @@ fn make_case(path: &str, form: Form, layer: usize, supports: usize, media: usize
     } else {
         t.push_str(POSITIONS[pos].1);
     }
-    t.push_str("@import ");
+    // (at-rule names are ASCII case-insensitive: half of the spellings write @IMPORT)
+    t.push_str(if matches!(form, Form::Sq | Form::UrlDq) { "@IMPORT " } else { "@import " });
     t.push_str(&spell(path, form));
     // half of the spellings write the condition functions in upper / mixed case
     let names = FN_CASE[if matches!(form, Form::Sq | Form::UrlDq) { 1 } else { 0 }];
